@@ -18,21 +18,23 @@ META = {
                  "for the constant-table solids; kernel-checked correspondence batches (exact face/edge/cell lists, "
                  "coordinates through binary64) and an independent half-edge oracle on the real meshes",
     "level_text": "Machine-checked Coq theorems, for ALL admissible parameters, about the definitions generated on every run from "
-                  "the current source of mouette/procedural: (C14_well_formed) indices in range, every vertex used, simple faces, no "
-                  "directed edge twice (consistently oriented edge-manifold, no repeated face) for unit_grid, unit_triangle, torus, "
-                  "sphere_uv, cylinder, ring, flat_ring; (C14_counts) documented vertex/face/edge counts incl. unequal resolutions; "
-                  "(C14_topology_partial) closedness or the explicit border cycle(s), connectedness and Euler characteristic "
-                  "2/0/1/0 for grid, torus, sphere_uv, cylinder with/without caps, ring, flat_ring; for unit_triangle only "
-                  "connectedness; PARTIAL: unit_triangle's border loop/Euler characteristic and the vertex-umbrella clause of every "
-                  "parametric generator are established only per tested parameter tuple, by a kernel-evaluated checker proved sound "
-                  "(C14_runtime_checker_sound); (C14_tables) the constant-table solids triangle, quad, tetrahedron, hexahedron, cube, "
-                  "hexahedron_4pts, icosahedron and the duals octahedron, dodecahedron completely, umbrellas included; "
-                  "(C14_params_honoured_partial) triangulate/volume/open/loop switches, ring's N<3 guard and the call plumbing, "
-                  "not the ring apex defect (numerical check only); (C14_on_surface_partial) identities over the reals for "
-                  "sphere_uv, torus, icosahedron, cylinder, ring rim, unit square, requested corners, not flat_ring's rim nor "
-                  "sphere_fibonacci (numerical check only). icosphere, sphere_fibonacci(build_surface), spherify_vertices, "
-                  "cylindrify_edges and dual_mesh on arbitrary input are outside the generated model: independent oracle on the real "
-                  "meshes (dual_mesh also compared with a hand model of vertex_to_faces).",
+                  "the current source of mouette/procedural. For unit_grid, unit_triangle, torus, sphere_uv, cylinder (with/without "
+                  "caps), ring (open/closed), flat_ring: (C14_well_formed) indices in range, every vertex used, simple faces, no "
+                  "directed edge twice (consistently oriented edge-manifold, no repeated face); (C14_vertex_manifold) every vertex "
+                  "umbrella is one fan, with the explicit corner ring of each vertex class (interior/border/corner vertices, poles, "
+                  "cap centres, apex); (C14_topology) closedness or the explicit border cycle(s), connectedness and Euler "
+                  "characteristic 2/0/1/0; (C14_counts) documented vertex/face/edge counts incl. unequal resolutions. "
+                  "(C14_tables) the constant-table solids triangle, quad, tetrahedron, hexahedron, cube, hexahedron_4pts, icosahedron "
+                  "and the duals octahedron, dodecahedron, by a sound checker evaluated in the kernel. (C14_params_honoured) "
+                  "triangulate/volume/open/loop switches, ring's N<3 guard, call plumbing; (C14_ring_apex_defect) the generated body "
+                  "of ring's bisection loop yields |defect(apex) - requested| < 1e-6 whenever the loop stops, incl. the bracket-"
+                  "enlargement branch, CONDITIONAL on three named facts about the real angle function (monotone in the apex height, "
+                  "defect 0 at height 0, no stop while the bracket is enlarged), which are checked numerically on every run. "
+                  "(C14_on_surface) identities over the reals for every generated coordinate formula: sphere_uv, torus, icosahedron, "
+                  "cylinder, ring and flat_ring rims, sphere_fibonacci points, icosphere's radial projection and base mesh, unit "
+                  "square, requested corners. Outside the generated model (independent oracle on the real meshes only): the faces of "
+                  "sphere_fibonacci(build_surface) (scipy ConvexHull), the loop subdivision rounds of icosphere (counts/topology), "
+                  "spherify_vertices, cylindrify_edges, and dual_mesh on arbitrary input (also compared with a hand model).",
     "level_note": "Trusted: Coq kernel + vm_compute; the Python-ast -> Gallina translator vf/translate/c14.py (exercised: "
                   "every generated definition is also run against the implementation); the driver's canonicalisation; "
                   "numpy linspace/cos/sin vs. the model's binary64 evaluation within 1e-9; RawMeshData.prepare / "
@@ -522,6 +524,31 @@ def short(kw):
     return ", ".join("%s=%s" % (k, s(v)) for k, v in kw.items())
 
 
+def check_bisection_hypotheses(N):
+    """The three facts about  g(h) = 2 pi - N * angle_3pts(A, (0,0,h), B)  that C14_ring_apex_defect assumes."""
+    A = [1.0, 0.0, 0.0]
+    B = [math.cos(2 * math.pi / N), math.sin(2 * math.pi / N), 0.0]
+    g = lambda h: 2 * math.pi - N * angle(A, [0.0, 0.0, h], B)
+    if abs(g(0.0)) > 1e-12:
+        return "g(0) = %r is not 0 for N = %d" % (g(0.0), N)
+    hs = [0.0] + [10 ** (k / 8.0 - 3) for k in range(0, 8 * 9)]
+    vals = [g(h) for h in hs]
+    for a, b, x, y in zip(hs, hs[1:], vals, vals[1:]):
+        if y < x - 1e-13:
+            return "defect not monotone in the apex height between h=%g and h=%g for N = %d" % (a, b, N)
+    dmax = 2 * math.pi - 0.01
+    h1, h2 = 0.0, 10.0
+    for _ in range(60):
+        if g(h2) >= dmax:
+            break
+        if abs(g(h1) - g(h2)) < 1e-6:
+            return "the bracket (%g, %g) is still below the largest request but its ends differ by < 1e-6 (N = %d)" % (h1, h2, N)
+        h1, h2 = h2, 2 * h2
+    else:
+        return "bracket enlargement does not reach the largest request for N = %d" % N
+    return None
+
+
 # ====================================================================== case generators
 def V3(x, y, z):
     return {"vec": [x, y, z]}
@@ -736,6 +763,7 @@ DEFAULTS = {
     "ring": {"open": False, "n_cover": 1},
     "flat_ring": {"n_cover": 1},
     "chain_of_vertices": {"loop": False},
+    "sphere_fibonacci": {"radius": 1.0, "build_surface": True},
 }
 
 
@@ -865,11 +893,21 @@ def run(ctx):
     ctx.obligation("oracle: every mesh returned by the implementation satisfies the property sentence (half-edge counting, "
                    "counts, on-surface, switches)", "oracle-on-implementation", True, "%d failing calls" % len(fails))
 
+    # ---- the named hypotheses of C14_ring_apex_defect, numerically
+    bad_h = [m for m in (check_bisection_hypotheses(N) for N in list(range(3, 41)) + [50, 64, 100, 200]) if m]
+    ctx.obligation("hypotheses of C14_ring_apex_defect hold numerically for N = 3..40, 50, 64, 100, 200 (monotone defect, "
+                   "g(0) = 0, no early stop while enlarging the bracket)", "numeric-hypothesis-check", not bad_h, "; ".join(bad_h[:3]))
+    ctx.trusted_base.append("C14_ring_apex_defect assumes, about the real function angle_3pts: the apex angle defect is monotone in "
+                            "the apex height, is 0 at height 0, and while the bracket (0,10),(10,20),(20,40).. is below the request "
+                            "its ends differ by >= 1e-6 in defect; termination of the loop is not proved (partial correctness)")
     # ---- kernel-checked correspondence
     bad_i = bad_c = bad_d = []
     icases = [(c, o) for c, o in zip(cases, o_cases) if c["gen"] in info and not info[c["gen"]]["has_mesh_param"]]
     ccases = [(c, o) for c, o in icases if "coords" in info[c["gen"]]["defs"] and not info[c["gen"]]["dual"]
               and o.get("exc") is None and len(o["X"]) <= 120 and admissible(c["gen"], c["kw"])]
+    # the point formula of sphere_fibonacci is generated too (its faces are not): coordinates only
+    ccases += [(c, o) for c, o in zip(outside, o_out) if c["gen"] == "sphere_fibonacci" and "sphere_fibonacci" in info
+               and o.get("exc") is None and len(o["X"]) <= 120]
     if quick:
         ccases = ccases[::2] if len(ccases) > 260 else ccases
     dcases = [(d, o) for d, o in zip(duals, o_dual) if o.get("exc") is None and d["_src_obs"].get("exc") is None]
